@@ -7,6 +7,7 @@ import (
 	"io"
 	"net"
 	"slices"
+	"sync"
 	"sync/atomic"
 	"time"
 
@@ -51,13 +52,30 @@ func WithDebug(f func(format string, arg ...any)) Option {
 // after New returns.
 func NewConn(ctx context.Context, conn net.Conn, options ...Option) (outConn *Conn, err error) {
 	defer func() { convertErrorsToAlerts(conn, err) }()
+	// The watcher must not touch the connection once NewConn has returned,
+	// even if it only gets to run after both done is closed and ctx has ended.
+	var mu sync.Mutex
+	var returned, expired bool
 	done := make(chan struct{})
-	defer close(done)
+	defer func() {
+		close(done)
+		mu.Lock()
+		returned = true
+		if expired && err == nil {
+			conn.SetDeadline(time.Time{})
+		}
+		mu.Unlock()
+	}()
 	go func() {
 		select {
 		case <-done:
 		case <-ctx.Done():
-			conn.SetDeadline(time.Now())
+			mu.Lock()
+			if !returned {
+				expired = true
+				conn.SetDeadline(time.Now())
+			}
+			mu.Unlock()
 		}
 	}()
 	record, err := readRecord(conn)
